@@ -281,6 +281,25 @@ func c15Execute(t *testing.T, cfg c15Cfg, next func(r *c15Run) (c15Stim, bool), 
 		r.reads = make([]int, len(cfg.subs))
 		for {
 			c15Settle()
+			if os.Getenv("C15_DEBUG_SETTLE") != "" {
+				r.mu.Lock()
+				n0 := len(r.labels)
+				r.mu.Unlock()
+				n := runtime.Stack(c15StackBuf, true)
+				dump := string(c15StackBuf[:n])
+				t0 := time.Now()
+				for i := 0; i < 200000; i++ {
+					runtime.Gosched()
+				}
+				_ = t0
+				r.mu.Lock()
+				n1 := len(r.labels)
+				r.mu.Unlock()
+				if n1 != n0 {
+					fmt.Println("PREMATURE SETTLE", n0, n1, r.labels[n0:])
+					fmt.Println(dump)
+				}
+			}
 			s, ok := next(r)
 			if !ok {
 				break
@@ -617,8 +636,7 @@ var c15StackBuf = make([]byte, 1<<20)
 var c15BlockedStates = []string{"chan send", "chan receive", "select", "sync.Mutex.Lock", "sync.RWMutex.",
 	"sync.WaitGroup.Wait", "semacquire", "synctest.Run", "sync.Cond.Wait"}
 
-// c15Settle waits until every other goroutine that runs harness or eventbus
-// code is blocked (channel operation, select, mutex, WaitGroup).
+// c15Settle waits until every other goroutine of the bubble is blocked (channel operation, select, mutex, WaitGroup).
 // synctest.Wait cannot be used: a goroutine waiting for a sync.Mutex is not
 // "durably blocked", and Emit/Subscribe/Close routinely wait for n.lk while
 // another Emit holds it blocked on a full channel.  Returns whether some
@@ -642,8 +660,8 @@ func c15Settle() (mutexWaiter bool) {
 			if strings.Contains(st, "synctest bubble") && !strings.Contains(st, "durable") {
 				mutexWaiter = true // not durably blocked: the virtual clock cannot advance
 			}
-			if !strings.Contains(g, "eventbus.") {
-				continue
+			if !strings.Contains(st, "synctest bubble") {
+				continue // not one of ours (every harness/bus goroutine lives in the bubble)
 			}
 			blocked := false
 			for _, b := range c15BlockedStates {
